@@ -28,10 +28,25 @@ class ChildEvent:
     lo: object                    # protected region is [lo, stack_end)
     abnormal: str | None = None
     ctx: object = None
+    private: tuple = ()           # extents allocated by the construct itself so far: no reference exists yet, children cannot reach them
     def havoc(self, mem):
+        return sem.as_mem(mem).havoc(self)
+
+    def protects(self, a, n):
+        c = self.ctx
+        alts = [z3.And(self.lo <= a, a + n <= c.stack_end)] + [z3.And(lo_ <= a, a + n <= hi_) for lo_, hi_ in self.private]
+        return z3.Or(*alts)
+
+    def exposes(self, a, n):
+        c = self.ctx
+        return z3.And(z3.Or(a + n <= self.lo, c.stack_end <= a), *[z3.Or(a + n <= lo_, hi_ <= a) for lo_, hi_ in self.private])
+
+    def havoc_z3(self, mem):
         c = self.ctx
         a = z3.Int('a!hv')
         prot = z3.And(self.lo <= a, a < c.stack_end)
+        for lo_, hi_ in self.private:
+            prot = z3.Or(prot, z3.And(lo_ <= a, a < hi_))
         return z3.Lambda([a], z3.If(prot, z3.Select(mem, a), z3.Select(self.fresh_mem, a)))
 
 
@@ -222,9 +237,11 @@ class Lemma:
             st2.regs[r] = c.fresh('hv_' + r)
         if info.kind == 'expr':
             v = c.fresh('v_' + node.name)
-            if node.type == DataType.BOOL: extra.append(v <= 1)
-            elif node.type == DataType.BYTE: extra.append(v <= 255)
-        ev = ChildEvent(info, v, pre, fresh_mem, lo, None, c)
+            from contracts import isa as _isa
+            if node.type == DataType.BOOL: extra.append(v <= 1); _isa.set_maybits(v, 1)
+            elif node.type == DataType.BYTE: extra.append(v <= 255); _isa.set_maybits(v, 0xFF)
+            elif node.type == DataType.STRING: self.string_object(v)
+        ev = ChildEvent(info, v, pre, fresh_mem, lo, None, c, tuple(st.extents))
         st2.mem = ev.havoc(st.mem)
         if info.kind == 'expr':
             if info.r_out in st2.regs:
@@ -235,7 +252,7 @@ class Lemma:
                 engine.store(st2, cond, c.label(info.r_out), self.w, v, f'child {node!r} result into [{info.r_out}]')
         st2.trace = st.trace + (('child', info, ev),)
         def abnormal(kind):
-            e2 = ChildEvent(info, None, pre, fresh_mem, lo, kind, c)
+            e2 = ChildEvent(info, None, pre, fresh_mem, lo, kind, c, tuple(st.extents))
             s3 = st2.copy(); s3.trace = st.trace + (('child', info, e2),)
             return s3
         leaves = []
@@ -701,6 +718,136 @@ class Lemma:
         self.nobot(leaves, P['NOBOT'])
         if not self.unchecked:
             self.prove_all('SAFE', eng.safety + extra_safety, P['SAFE'])
+        else:
+            self.prove_all('CHILDPRE', [s for s in eng.safety if 'precondition' in s[1]], P['SIM'])
+        self.cover(leaves, list(want_cover), P['SIM'])
+        return self.results
+
+    # ---- arrays ------------------------------------------------------------------------------------------------------------------
+    def _word(self, mem, a):
+        v = None
+        for k in range(self.w):
+            b = z3.Select(mem, a + k); self.ctx.facts += [b >= 0, b <= 255]
+            v = b if v is None else v + (1 << (8 * k)) * b
+        return v
+
+    def array_bytes(self, el, length):
+        if el == DataType.BOOL:
+            return (length + 7) / 8
+        return length * (1 if el.byte_sized else self.w)
+
+    def array_var(self, name, el=DataType.INT, where='local', access=None, const=None):
+        """an array variable in scope (I-arrays): `where` = local (reference in the frame) or glob (label + literal length).
+        access: RW / R (state) / RC (const section)"""
+        cg = self.cg; w = self.w; E = self.entry; c = self.ctx
+        access = access or AccessMode.RW
+        ctype = ConcreteArrayType(el, access)
+        maxlen = ((1 << (self.bits - 1)) - 1) // (1 if el.byte_sized else w)
+        if where == 'local':
+            X = self.sym('XL' + name)            # length slot at X, origin slot at X + w  (reserve_type order)
+            self.session.assume(X.z3() >= 2 * w); self.session.assume(X.z3() + w <= self.O.z3())
+            ref = ArrayRef(ctype, origin=asm.Indirect(asm.Section.STATE, asm.State(cg.fp), asm.IntLiteral(-(X + w))),
+                           length=asm.Indirect(asm.Section.STATE, asm.State(cg.fp), asm.IntLiteral(-X)))
+            cg.local_vars[name] = ref
+            origin = self._word(E.mem, E.regs['fp'] - X.z3() - w); length = self._word(E.mem, E.regs['fp'] - X.z3())
+        else:
+            K = self.sym('N' + name, 0, maxlen)
+            label = asm.LabelRef(('data_' if access == AccessMode.RC else 'var_') + name + '_0')
+            ref = ArrayRef(ctype, label, asm.IntLiteral(K))
+            cg.global_vars[name] = ref
+            origin = c.label(label.label_name); length = K.z3()
+        size = self.array_bytes(el, length)
+        c.pre += [length >= 0, length <= maxlen]
+        if access == AccessMode.RC:
+            c.const_extents.append((origin, origin + size)); c.pre += [origin >= 0, origin + size < self.M // 2]
+        else:
+            c.extents.append((origin, origin + size))
+            # a live stack array below ap, or a global / argument array above the stack
+            c.pre += [z3.Or(z3.And(5 * w <= origin, origin + size <= E.regs['ap']), z3.And(c.stack_end <= origin, origin + size < self.M // 2))]
+        is_const = (access != AccessMode.RW) if const is None else const
+        var = ast.Variable(name, ArrayType(el, is_const), True)
+        self.vars[name] = ('array', SP.ArrayVal(el, 'const' if access == AccessMode.RC else 'state', origin, length, access == AccessMode.RW), None, None)
+        return ast.VariableLookup(var, SPAN)
+
+    def array_value(self, S, var):
+        return self.vars[var.name][1]
+
+    def string_object(self, p):
+        """I-strings: a string value points at a (length word, bytes) object inside const memory"""
+        c = self.ctx
+        ln = self._word(c.cmem, p)
+        c.const_extents.append((p, p + self.w + ln))
+        c.pre += [p >= 0, ln >= 0, ln < self.M // 2, p + self.w + ln < self.M // 2]
+        return ln
+
+    def string_operand(self, name, shape):
+        S_ = DataType.STRING
+        if shape == 'opaque':
+            return AExpr(name, S_)            # the object invariant is attached when the child produces its value (child_sem)
+        if shape == 'local':
+            v = self.local(name, S_)
+            a, size = self.var_address(v.var)
+            self.string_object(self._word(self.entry.mem, a))
+            return v
+        if shape == 'literal':
+            data = b'hello'
+            lbl = self.cg.label_for_string(data)
+            p = self.ctx.label(lbl.label_name)
+            ln = self.string_object(p)
+            self.ctx.pre.append(ln == len(data))        # string table entry: length word = len(data) (C13 emission contract)
+            return ast.StringValue(data, SPAN)
+        raise ValueError(shape)
+
+    def alloc_base(self, S):
+        """where the next stack array is allocated: the top of the array stack at entry (plus what this construct allocated before)"""
+        return self.entry.regs['ap']
+
+    def check_array_expr(self, e, r_out, P, want_cover=(('exit', '<end>'),)):
+        """eval_expr on an expression that yields a *new* stack array (ArrayLiteral)"""
+        cg = self.cg
+        out = self.guarded_emit(lambda: cg.eval_expr(asm.LabelRef(r_out), e, True), P.get('NOERR', ('C10',)))
+        if out is None:
+            return self.results
+        instrs, lines, bubble = out
+        self.lines = lines
+        t0 = time.time(); book = []
+        if not isinstance(bubble.value, ArrayRef): book.append('result is not an array reference')
+        if not (bubble.prev == self.entry_stack): book.append('bubble.prev is not the entry stack')
+        if not (cg.stack == bubble.cur): book.append('self.stack is not bubble.cur')
+        if bubble.cur.array_num != self.entry_stack.array_num + 1: book.append('array_num not incremented for a new array')
+        if len(cg.allocated_arrays) != self.entry_stack.array_num + 1: book.append('allocated_arrays not extended')
+        self.add('BOOK', FAILED if book else DISCHARGED, t0, P['SIM'], {'message': '; '.join(book), 'formula': 'bookkeeping of a freshly allocated array',
+                 'replay': {'reproduced': True, 'how': 'observed on the value returned by the real method'}}, backend='harness')
+        if book:
+            return self.results
+        self.finalize_headroom()
+        eng, leaves = self.run_engine(lines)
+        self.last_leaves = leaves
+        extra = []
+        E = self.entry.regs
+        static = bubble.cur.static_array_size - self.entry_stack.static_array_size
+
+        def compare(S, leaf, o):
+            arr = o.value
+            ov, s1 = self.read_accessor(bubble.value.origin, leaf); lv, s2 = self.read_accessor(bubble.value.length, leaf)
+            extra.extend(s1 + s2)
+            S.require_eq(ov, arr.origin, 'origin of the new array (must be the old top of the array stack)')
+            S.require_eq(lv, arr.length, 'length of the new array')
+            nbytes = self.array_bytes(arr.el_type, arr.length)
+            S.require(leaf.st.regs['ap'] == E['ap'] + nbytes, 'ap is not advanced by exactly the size of the new array')
+            S.require(self.term(static) == nbytes, 'static_array_size bookkeeping differs from the allocated size')
+            # content, byte by byte (the literal has a concrete number of elements)
+            n = z3.simplify(nbytes)
+            if not z3.is_int_value(n):
+                raise SP.Undecided('array size is not concrete')
+            for j in range(n.as_long()):
+                S.require_eq(S.load(leaf.st.mem, arr.origin + j, 1), S.load(S.mem, arr.origin + j, 1), f'byte {j} of the new array')
+            S.sync(leaf.st, 'at exit')
+        self.simulate(leaves, lambda S: S.array_of(e), compare, P['SIM'])
+        self.inv_at_exit([l for l in leaves if l.kind == 'exit'], P['INV'], ap_delta=self.term(static))
+        self.nobot(leaves, P['NOBOT'])
+        if not self.unchecked:
+            self.prove_all('SAFE', eng.safety + extra, P['SAFE'])
         else:
             self.prove_all('CHILDPRE', [s for s in eng.safety if 'precondition' in s[1]], P['SIM'])
         self.cover(leaves, list(want_cover), P['SIM'])
